@@ -4,6 +4,7 @@ CONSTANTS
   MaxPush = 4
   MaxPop = 4
   MaxUnblock = 2
+  MaxSize = 0
   Void = FALSE
   AllowDestroy = TRUE
 INVARIANTS TypeOK NeverBothNonEmpty ExactlyOnceDelivery DeliveredInOrder ItemsSorted WaitersFIFO NoLostWaiter DestroyCancels
